@@ -156,6 +156,9 @@ func MakeNode(nk, buf []byte) (*Node, error) {
 			if err != nil {
 				return nil, fmt.Errorf("decoding legacy node.leftNodeKey, %w", err)
 			}
+			if len(node.leftNodeKey) != hashSize {
+				return nil, errors.New("invalid legacy node.leftNodeKey length")
+			}
 			buf = buf[n:]
 		} else {
 			var (
@@ -182,6 +185,9 @@ func MakeNode(nk, buf []byte) (*Node, error) {
 			node.rightNodeKey, _, err = encoding.DecodeBytes(buf)
 			if err != nil {
 				return nil, fmt.Errorf("decoding legacy node.rightNodeKey, %w", err)
+			}
+			if len(node.rightNodeKey) != hashSize {
+				return nil, errors.New("invalid legacy node.rightNodeKey length")
 			}
 		} else {
 			var (
